@@ -232,7 +232,7 @@ type Outcome struct {
 	SchedHash  uint64
 	Visits     []uint32 `json:"-"`
 	EstSteps   int64
-	LogHash    uint64 // hash of everything observable about the run (determinism self-test)
+	LogHash    uint64   // hash of everything observable about the run (determinism self-test)
 	HistFuncs  []string `json:"history_funcs,omitempty"` // cache-full handling functions entered in the reference pass or the concurrent phase
 }
 
